@@ -108,6 +108,7 @@ def run(ctx):
                 ctx.fail("acyclic model rejected: %s %s" % (res["load"], res["ops"]), sc.describe())
     eems_cycles(ctx, model)
     api_extension(ctx)
+    api_histories(ctx)
     return ctx.finish(
         rule="scenarios = (digraph on 1..3 commands enumerated completely [thorough: 4 sampled 1500], random digraphs on 4-6 commands with optional "
              "acyclic tails/components; edges realised as direct, list, nested-list or mixed references; 2-6 textual orders each); "
@@ -201,6 +202,60 @@ def api_extension(ctx):
         ctx.count("api_extension_cases")
         if out:
             ctx.fail("cycle x<->y added via add_command (%s) after a successful run: run() %s" % (style, out), {"style": style})
+
+
+def api_histories(ctx):
+    """cycles that come into being through the programming interface: result names that are no identifiers (quoted EEMS 2.0 field names,
+    add_command), and a finished model edited so that its source command now reads from the end of the chain"""
+    from collections import OrderedDict
+    from mpilot.program import Program
+    from mpilot.exceptions import RecursiveModelStructure
+    import sys
+    m = prog.testlib()
+    rng = ctx.rng
+
+    def outcome(p):
+        old = sys.getrecursionlimit(); sys.setrecursionlimit(600)
+        try:
+            p.run()
+            return "returned normally (finished: %r)" % [n for n, c in p.commands.items() if c.is_finished]
+        except RecursiveModelStructure:
+            return None
+        except BaseException as e:
+            return "raised " + progrun.classify(e)
+        finally:
+            sys.setrecursionlimit(old)
+    rec = progrun.Recorder()
+    for names in (["x-1", "y z"], ["Slope-Fz", "b.c", "é"], ["a/b", "a/b/c"], ["1st", "2nd", "3rd", "4th"]):
+        for style in ("One", "Many"):
+            with progrun.stubbed([m.N], rec):
+                p = Program(libraries=(prog.TESTLIB,))
+                k = len(names)
+                for i, nme in enumerate(names):
+                    ref = names[(i + 1) % k]
+                    p.add_command(m.N, nme, OrderedDict([(style, ref if style == "One" else [ref])]))
+                p.add_command(m.N, "tail", OrderedDict([("One", names[0])]))
+                out = outcome(p)
+            ctx.case("api-names %r %s" % (names, style), sample=None)
+            ctx.count("api_history_cases")
+            if out:
+                ctx.fail("cycle over the result names %r (%s references, built with add_command): run() %s" % (names, style, out), {"names": names, "style": style})
+    for first in ("run", "result", "none"):
+        for style in ("One", "Many"):
+            with progrun.stubbed([m.N], rec):
+                p = Program.from_source("a = N()\nb = N(One = a)\nc = N(Many = [b, a])\n", libraries=(prog.TESTLIB,))
+                if first == "run":
+                    p.run()
+                elif first == "result":
+                    p.commands["c"].result
+                del p.commands["a"]
+                p.add_command(m.N, "a", OrderedDict([(style, "c" if style == "One" else ["c"])]))
+                out = outcome(p)
+            ctx.case("api-edit %s %s" % (first, style), sample=None)
+            ctx.count("api_history_cases")
+            if out:
+                ctx.fail("a model evaluated by %s and then edited so that its source reads from the end of the chain (%s reference): run() %s" % (
+                    first, style, out), {"history": first, "style": style})
 
 
 def replay(path):
